@@ -321,6 +321,11 @@ func (d *jsonDecoder) unmarshalMap(protomap protoreflect.Map, fd protoreflect.Fi
 	for key, raw := range marshaled {
 		d.dec = json.NewDecoder(strings.NewReader(strconv.Quote(key)))
 
+		if fd.MapKey().Kind() == protoreflect.BoolKind {
+			// JSON object keys are always strings, but booleans aren't accepted as strings anywhere else
+			d.dec = json.NewDecoder(strings.NewReader(key))
+		}
+
 		keyValue, err := d.unmarshalScalar(fd.MapKey())
 		if err != nil {
 			return fmt.Errorf("invalid map key value: %w", err)
